@@ -134,6 +134,18 @@ theorem hashIncr_wf (h : WF db) (k f : Bytes) (d now : Int) : WF (hashIncr db k 
     · exact h
     · rename_i dd he; exact hashSetTx_wf h he
 
+theorem hashIncrFloat_wf (h : WF db) (k f : Bytes) (d : Dyadic) (now : Int) : WF (hashIncrFloat db k f d now).db := by
+  unfold hashIncrFloat
+  simp only
+  split
+  · exact h
+  · exact h
+  · split
+    · split <;> exact h
+    · split
+      · exact h
+      · rename_i dd he; exact hashSetTx_wf h he
+
 /-- delete some fields of one hash, then `len = len - n` on its key -/
 theorem hashRemove_wf (h : WF db) {kid : Int} (ho : Owner db kid THash) (q : HashRow → Bool)
     (f : KeyRow → KeyRow)
